@@ -5,7 +5,9 @@ use crate::kernel::runner::{run_phase, Crumbs, Found, Gen, Phase, PhaseResult};
 use crate::kernel::shrink::shrink;
 use crate::kernel::stats::Stats;
 use crate::scenario::Scenario;
+use crate::object::{c06, c14};
 use crate::stream::{c03, c07};
+use crate::object::hist::Op;
 use std::io::Read;
 use std::process::{Command, Stdio};
 use std::sync::Arc;
@@ -81,6 +83,42 @@ pub fn build_spec(property: &str, tier: &str, seed: u64) -> Option<Spec> {
                 crash_is_violation: true,
             })
         }
+        "C06" => {
+            let phases: Vec<Box<dyn Phase>> = vec![
+                Box::new(c06::C06Search { runs: runs(400_000, 20_000_000, tier), max_len: if thorough { 400 } else { 60 } }),
+                Box::new(c06::C06Small { len: if thorough { 4 } else { 3 } }),
+            ];
+            Some(Spec {
+                property: "C06", level: "exploration", phases,
+                rule: "history-search: seeded operation histories (1-24 operations, one in ten up to the tier's maximum) over a per-run key universe of 1-3 keys (dense duplicates) or 24-48 keys (several growth/rehash cycles of the raw table; inline, heap-spilled, empty, non-ASCII and shared-prefix keys), up to three registers, per-run operation weights with a random subset of the 24 operations disabled, a cancellation point (pull n, then drop / exhaust / unwind) on every lazily-mutating removal iterator, and a simulator-chosen hash behaviour (good, constant, 2/4/8 distinct hashes, constant control tag, constant start slot). After every operation: result vs list model, entries of every register, all ten key queries per universe key, index-dump invariants. small-universe-exhaustive (supplementary): every history up to the length bound over a 21-operation menu on keys {a,b}. A case is one explicit history; distinct = distinct digest of the operation list with arguments and hash configuration; non-trivial = the history contains a cancellation that left work to Drop (untouched / partial / unwound) or a growth of the raw table after positions had been shifted.".into(),
+                assumptions: vec![
+                    "the list model (sim/src/object/model.rs) pins only behaviour stated in the rustdoc or in the property's anchors: in-place replacement at the first occurrence, completion in Drop, removal order by position".into(),
+                    "mem::forget of a mutating iterator is not injected (leaking is not among the listed operations)".into(),
+                    "value comparison is an independent structural walk deferring only to leaf ==".into(),
+                    "the simulator-owned hash builder replaces ahash's process-global random state (hook); sampling, not proof".into(),
+                ],
+                matrix: ("operation", Op::NAMES.to_vec(), "-", vec!["applied"], vec!["count"]),
+                components_real: vec!["json_syntax::Object / object::index_map (all of src/object) through the public API", "hashbrown RawTable", "smallstr keys", "Value (clone, Display, Ord for sort)"],
+                components_stub: vec!["the hash builder of the key index (SimHashBuilder behind cfg(json_syntax_verif)): seed and behaviour chosen by the simulator", "the consumer of removal iterators (cancellation points)"],
+                crash_is_violation: true,
+            })
+        }
+        "C14" => {
+            let phases: Vec<Box<dyn Phase>> = vec![Box::new(c14::C14Search { runs: runs(150_000, 8_000_000, tier), max_len: if thorough { 200 } else { 40 } })];
+            Some(Spec {
+                property: "C14", level: "exploration", phases,
+                rule: "twin-history-search: the C06 workload (seeded histories with cancellation points and simulator-chosen hash behaviour); at 1-3 checkpoints per history the object's own observed entry list is rebuilt by nine other routes (from_vec, pushes, reversed push_front, chunked extend, superset with junk entries removed again under random cancellation, clone, into_iter/collect, null-then-iter_mut, inserts) each under a fresh hash seed and mode, and object, Value::Object and Value::Array wrappers must be ==, compare Equal both ways (cmp and partial_cmp) and hash identically under SipHash and FNV-1a; five near copies (one value / one key changed, entry duplicated, removed, adjacent swapped) must be unequal, not Equal, antisymmetric; a pool of up to 14 snapshots, near copies and plain values is checked pairwise (== iff structurally identical by an independent walk, Equal iff ==, antisymmetry, partial_cmp agrees, equal => same hash) and triple-wise (transitivity). A case is one history with its twin seed; distinct = distinct digest; non-trivial = at least one compared twin had an index dump (bucket count or bucket contents) different from the original's, i.e. the internal state really differed when equality was asked.".into(),
+                assumptions: vec![
+                    "ground truth is the object's own observed entry list, never the C06 model; twins whose construction does not reproduce that list are skipped (a C06 matter)".into(),
+                    "no particular order is required, only the laws; unequal values may hash alike".into(),
+                    "structural identity defers to the leaf types' own == (json-number, smallstr)".into(),
+                ],
+                matrix: ("twin_route", vec!["from_vec", "push_in_order", "push_front_in_reverse", "chunked_extend", "superset_then_remove_junk", "clone", "into_iter_collect", "null_then_iter_mut", "insert_in_order_if_unique_keys"], "-", vec!["compared"], vec!["count"]),
+                components_real: vec!["Eq / Ord / PartialOrd / Hash of json_syntax::Object, Value, Entry", "Object operations used to reach states"],
+                components_stub: vec!["the hash builder of the key index (seed and behaviour per object chosen by the simulator)"],
+                crash_is_violation: false,
+            })
+        }
         _ => None,
     }
 }
@@ -95,6 +133,8 @@ pub fn judge_scenario(property: &str, sc: &Scenario) -> Result<Option<(String, S
         }
         ("C03", Scenario::Stream(s)) => c03::execute_c03(s, 0, &mut st, 0, None).violation,
         ("C03", Scenario::Deep(d)) => c03::execute_deep(d, &mut st, Duration::from_secs(900)).violation,
+        ("C06", Scenario::Hist(h)) => c06::run_c06(h, &mut st).violation,
+        ("C14", Scenario::Hist(h)) => c14::run_c14(h, &mut st).violation,
         (p, s) => return Err(format!("no oracle for property {} on engine {}", p, s.engine())),
     };
     Ok(v.map(|v| (v.check_id, v.message)))
